@@ -43,6 +43,8 @@ fn main() {
     let mut block_size = 4096usize;
     let mut dbops: Vec<api::DbOp> = vec![];
     let mut moves = "nnpnppnnnpnpp".to_string();
+    let mut raw_bytes: Vec<Vec<u8>> = vec![];
+    let mut encodes: Vec<(u64, Vec<(Vec<u8>, Option<Vec<u8>>)>)> = vec![];
     for l in &lines {
         let t: Vec<&str> = l.split_whitespace().collect();
         if t.is_empty() {
@@ -72,6 +74,8 @@ fn main() {
             "entry" => entries.push((unhex(t[1]), t[2].parse().unwrap(), t[3].parse().unwrap(), unhex(t[4]))),
             "lookup" => lookups.push((unhex(t[1]), t[2].parse().unwrap())),
             "block_size" => block_size = t[1].parse().unwrap(),
+            "bytes" => raw_bytes.push(unhex(t[1])),
+            "encode" => encodes.push((t[1].parse().unwrap(), t[2..].chunks(2).map(|c| (unhex(c[0]), if c[1] == "!" { None } else { Some(unhex(c[1])) })).collect())),
             "moves" => moves = t[1].to_string(),
             "file" => files.push((
                 api::ikey(&unhex(t[1]), t[2].parse().unwrap(), 1),
@@ -212,6 +216,64 @@ fn main() {
             }
             if bad.is_empty() { println!("REPLAY holds oracle=db_views views={}", views.len()); }
             else { println!("REPLAY violated oracle=db_views {}", bad.join("; ")); }
+        }
+        // real Batch::try_from / Vec::from(&Batch) vs a reference codec of the documented layout
+        // (fixed64 sequence, varint32 count, elements: op byte, length-prefixed key, [length-prefixed value])
+        "batch_codec" => {
+            fn varint(s: &[u8]) -> Option<(u64, usize)> {
+                let mut v: u64 = 0;
+                for (i, b) in s.iter().enumerate().take(10) {
+                    v |= ((b & 0x7f) as u64) << (7 * i);
+                    if b & 0x80 == 0 { return Some((v, i + 1)); }
+                }
+                None
+            }
+            fn lp(s: &[u8]) -> Option<(Vec<u8>, usize)> {
+                let (n, c) = varint(s)?;
+                if n > u32::MAX as u64 || c + n as usize > s.len() { return None; }
+                Some((s[c..c + n as usize].to_vec(), c + n as usize))
+            }
+            fn reference(s: &[u8]) -> Option<(u64, Vec<(u8, Vec<u8>, Option<Vec<u8>>)>)> {
+                if s.len() < 8 { return None; }
+                let seq = u64::from_le_bytes(s[0..8].try_into().unwrap());
+                let (n, c) = varint(&s[8..])?;
+                if n > u32::MAX as u64 { return None; }
+                let mut off = 8 + c;
+                let mut els = vec![];
+                for _ in 0..n {
+                    if off >= s.len() || s[off] > 1 { return None; }
+                    let op = s[off];
+                    let (k, kc) = lp(&s[off + 1..])?;
+                    off += 1 + kc;
+                    let v = if op == 1 { let (v, vc) = lp(&s[off..])?; off += vc; Some(v) } else { None };
+                    els.push((op, k, v));
+                }
+                Some((seq, els))
+            }
+            fn put_varint(out: &mut Vec<u8>, mut v: u64) { while v >= 0x80 { out.push((v as u8 & 0x7f) | 0x80); v >>= 7; } out.push(v as u8); }
+            let mut bad = vec![];
+            for b in &raw_bytes {
+                let actual = api::batch_decode(b);
+                let expected = reference(b);
+                match (&actual, &expected) {
+                    (Ok(a), Some(e)) if a == e => {}
+                    (Err(_), None) => {}
+                    _ => bad.push(format!("decode({}) returned {:?} expected {:?}", hex(b), actual.as_ref().map(|x| x.1.len()).map_err(|e| e.clone()), expected.as_ref().map(|x| x.1.len()))),
+                }
+            }
+            for (seq, ops) in &encodes {
+                let actual = api::batch_encode(*seq, ops);
+                let mut e = seq.to_le_bytes().to_vec();
+                put_varint(&mut e, ops.len() as u64);
+                for (k, v) in ops {
+                    e.push(if v.is_some() { 1 } else { 0 });
+                    put_varint(&mut e, k.len() as u64); e.extend_from_slice(k);
+                    if let Some(v) = v { put_varint(&mut e, v.len() as u64); e.extend_from_slice(v); }
+                }
+                if actual != e { bad.push(format!("encode(seq {}, {} ops) gave {} expected {}", seq, ops.len(), hex(&actual), hex(&e))); }
+            }
+            if bad.is_empty() { println!("REPLAY holds oracle=batch_codec cases={}", raw_bytes.len() + encodes.len()); }
+            else { println!("REPLAY violated oracle=batch_codec {}", bad.join("; ")); }
         }
         // real TableBuilder + Table::get vs "newest entry of the user key at or below the bound"
         "table_get" => {
